@@ -385,6 +385,8 @@ func checkC10(c *Ctx) Meta {
 	c.Rule("C10-STOP", "an interrupted step is never taken for a completed one: on the plotting path the branch taken when the stop channel fires returns a provably non-nil error", 3)
 	c.Rule("C10-FRESH", "every window is computed into a freshly allocated (zeroed) cache: Update always reallocates, makeAvailableMemory always updates on success, every window write is preceded by it within its own round", 4)
 	c.Rule("C10-REMOVE", "map A is removed only after both passes returned nil (whose every normal exit has passed the final checkpoint and its Sync)", 2)
+	c.Rule("C10-KEEPER", "the keeper never takes an unfinished plot for a finished one: after a plot run the plotter moves the space to ready or mining only behind `Progress() >= 100` of the plotted space, evaluated after Plot returned", 2)
+	checkStep3(c, "C10-KEEPER", pkgCapacity, "capacity")
 	c.Rule("C10-READY", "readiness is derived from B's checkpoint: HashMapB.Progress compares checkpoint with volume; MassDBV1.Progress forwards it; NewWorkSpace stores Ready only under that flag; OpenDB loads map A whenever B is not final", 4)
 
 	pre := c.MustFn("C10-ORDER", "poc/engine/massdb/massdb.v1", "(*MassDBV1).prePlotWork")
